@@ -121,6 +121,7 @@ type callCase struct {
 	Spec  string  `json:"spec"`
 	In    univ.V  `json:"in"`
 	Args  []arg   `json:"args"`
+	Big   bool    `json:"big,omitempty"`   // size sweep: run under the raised budgets
 	In2   *univ.V `json:"in2,omitempty"`   // rep: the re-represented input
 	Args2 []arg   `json:"args2,omitempty"` // rep: the re-represented arguments
 }
@@ -326,9 +327,22 @@ func compile(q string) (*gojq.Code, error) {
 	return code, err
 }
 
-const (
+// budgets of one call; the size sweeps raise them (withBudget).
+var (
 	stepBudget = 30000
 	outBudget  = 120
+)
+
+func withBudget(steps, outs int, f func()) {
+	s, o := stepBudget, outBudget
+	stepBudget, outBudget = steps, outs
+	defer func() { stepBudget, outBudget = s, o }()
+	f()
+}
+
+const (
+	bigSteps = 2000000
+	bigOuts  = 10000
 )
 
 func exec(code *gojq.Code, in any, vs []any) run.Result {
